@@ -332,8 +332,8 @@ func lockSuite(c *Ctx) []Finding {
 			if t.Before(closedAt) {
 				bad("no-exclusion", "second Open returned before Close")
 			}
-		case <-time.After(5 * time.Second):
-			bad("open-never-returns", "the second Open did not return within 5 s after the first handle was closed")
+		case <-time.After(20 * time.Second):
+			bad("open-never-returns", "the second Open did not return within 20 s after the first handle was closed")
 		}
 		count("second-open-waits", "ok")
 	}
@@ -364,8 +364,8 @@ func lockSuite(c *Ctx) []Finding {
 		cdb.Close()
 		select {
 		case <-done:
-		case <-time.After(5 * time.Second):
-			bad("open-never-returns", "an Open waiting for the creator's handle did not return within 5 s after it was closed")
+		case <-time.After(20 * time.Second):
+			bad("open-never-returns", "an Open waiting for the creator's handle did not return within 20 s after it was closed")
 		}
 		if free, perr := lockFree(cpath); perr == nil && !free {
 			bad("lock-leak-create", "the file is still locked after the creator's handle was closed")
@@ -425,8 +425,8 @@ func lockSuite(c *Ctx) []Finding {
 			if err != nil {
 				bad("waiting-open-stale", fmt.Sprintf("an Open that waited for the lock while the holder brought the file (%s at first) to its final state failed on the finished, valid file: %v", variant, err))
 			}
-		case <-time.After(5 * time.Second):
-			bad("open-never-returns", "an Open waiting for the lock did not return within 5 s after the holder released it")
+		case <-time.After(20 * time.Second):
+			bad("open-never-returns", "an Open waiting for the lock did not return within 20 s after the holder released it")
 		}
 	}
 	return findings
